@@ -686,7 +686,9 @@ def run(ck: core.Check):
     hist_retype = collections.Counter()
     for i_, (p_, o_) in enumerate(programs):
         if o_.split(":")[0] in ("skeleton", "skeleton2", "skeleton3", "skeleton5") and rng.random() < 0.35:
-            dt_, ln_ = rng.choice([("f64", None), ("i32", None), ("f16", None), (None, 0), ("f64", 0), ("i32", 0), (None, 1), ("f16", 5)])
+            dt_, ln_ = rng.choice([("f64", None), ("i32", None), ("f64", 5), (None, 0), ("f64", 0), ("i32", 0), (None, 1), ("i32", 5)])
+            # (float16 is left out: onnxruntime computes these operators in float32 and rounds once, numpy rounds
+            #  after every operator — values above 2048 differ in the last place; not a property of spox)
             q_ = L.retype(p_, dt_, ln_)
             if q_ is not None:
                 programs[i_] = (q_, f"{o_} [retyped {dt_ or 'i64'}, length {N_ if ln_ is None else ln_}]")
